@@ -308,7 +308,7 @@ fn gen_structured(rng: &mut Rng) -> (usize, Vec<(u32, u32)>, Vec<u32>) {
     let mut atts: Vec<(u32, u32)> = vec![];
     let mut special: Vec<u32> = vec![];
     let n;
-    match rng.below(5) {
+    match rng.below(6) {
         0 => {
             // in-hub: h attacked by k arguments, most of them defeated by a common defender c;
             // 0..3 of them (and 0..2 extra attackers declared last) stay undefeated; h -> x -> y
@@ -418,6 +418,32 @@ fn gen_structured(rng: &mut Rng) -> (usize, Vec<(u32, u32)>, Vec<u32>) {
                 atts.reverse();
             }
             special.extend([0, 1, len as u32 / 2, len as u32 - 2, len as u32 - 1]);
+        }
+        4 => {
+            // comb: a backbone chain with k mutual-attack pairs hanging off it, all in ONE component:
+            // 2^k preferred / stable extensions, each with more than a hundred members
+            let k = rng.range(3, 9);
+            let spine = rng.range(60, 300);
+            n = spine + 2 * k;
+            for i in 0..spine as u32 - 1 {
+                atts.push((i, i + 1));
+            }
+            for j in 0..k as u32 {
+                let (x, y) = (spine as u32 + 2 * j, spine as u32 + 2 * j + 1);
+                atts.push((x, y));
+                atts.push((y, x));
+                // the pair touches the spine at a seeded place, in a seeded direction
+                let at = rng.below(spine) as u32;
+                if rng.bool() {
+                    atts.push((x, at));
+                } else {
+                    atts.push((at, x));
+                }
+                special.extend([x, y, at]);
+            }
+            if rng.bool() {
+                rng.shuffle(&mut atts);
+            }
         }
         _ => {
             // layered acyclic graph: attacks only from a lower to a higher index (unique extension)
@@ -817,7 +843,7 @@ impl Property for C11 {
         out.into_iter().map(|c| serde_json::to_value(c).unwrap()).collect()
     }
     fn rule(&self) -> String {
-        "case = a framework of 20..600 arguments — 3/5 a random sparse digraph (tree backbone + extra, mutual and self attacks), 2/5 a STRUCTURED one: an argument with 17..400 attackers mostly defeated by a common defender, with 0..2 decisive attackers declared last; an out-hub with 40..300 targets feeding in-hubs; 30..150 small components; a chain or cycle of 100..500 arguments with chords; a layered acyclic graph of 50..400 arguments (unique extension = grounded) — read through the real ICCMA'23 reader in 3..5 presentations: base; arguments renamed/reordered; attack lines shuffled and repeated; disjoint union with pooled components that have a stable extension (even cycles, chains, isolated arguments); union with additionally a component WITHOUT stable extension (odd cycle, self-attacker chain). All DC/DS problems for 2..3 arguments of the base component and all SE problems are run on every presentation, each presentation under a different SAT-oracle behaviour (real CaDiCaL steered by 24 seeded assumptions per call, or plain CaDiCaL). Oracle: GROUNDED CONSEQUENCES (absolute): DC/DS-GR equal membership in the grounded extension computed here as a least fixed point; its members are accepted and the arguments it attacks rejected under CO, PR, SST, ID (and under ST, STG when it settles every argument); DIFFERENTIAL: equal statuses across presentations (ST: all-skeptical/none-credulous when a component without stable extension is added); GR within ID within every returned PR extension; DC-CO = DC-PR; skeptical => credulous when an extension exists; ST/SST/STG coincide when SE-ST returns an extension; every returned extension/certificate passes the polynomial checks (conflict-free, admissible, F(S)=S, stable, grounded = lfp). Budget: 600 SAT calls per query (deterministic); over-budget queries are counted as skipped, not passed. 1/20 of the cases also go through the real binaries with files on disk. Non-trivial = every case; distinct = distinct case".into()
+        "case = a framework of 20..600 arguments — 3/5 a random sparse digraph (tree backbone + extra, mutual and self attacks), 2/5 a STRUCTURED one: an argument with 17..400 attackers mostly defeated by a common defender, with 0..2 decisive attackers declared last; an out-hub with 40..300 targets feeding in-hubs; 30..150 small components; a chain or cycle of 100..500 arguments with chords; a comb (a chain of 60..300 with 3..9 mutual pairs attached: up to 512 preferred extensions of 100+ members); a layered acyclic graph of 50..400 arguments (unique extension = grounded) — read through the real ICCMA'23 reader in 3..5 presentations: base; arguments renamed/reordered; attack lines shuffled and repeated; disjoint union with pooled components that have a stable extension (even cycles, chains, isolated arguments); union with additionally a component WITHOUT stable extension (odd cycle, self-attacker chain). All DC/DS problems for 2..3 arguments of the base component and all SE problems are run on every presentation, each presentation under a different SAT-oracle behaviour (real CaDiCaL steered by 24 seeded assumptions per call, or plain CaDiCaL). Oracle: GROUNDED CONSEQUENCES (absolute): DC/DS-GR equal membership in the grounded extension computed here as a least fixed point; its members are accepted and the arguments it attacks rejected under CO, PR, SST, ID (and under ST, STG when it settles every argument); DIFFERENTIAL: equal statuses across presentations (ST: all-skeptical/none-credulous when a component without stable extension is added); GR within ID within every returned PR extension; DC-CO = DC-PR; skeptical => credulous when an extension exists; ST/SST/STG coincide when SE-ST returns an extension; every returned extension/certificate passes the polynomial checks (conflict-free, admissible, F(S)=S, stable, grounded = lfp). Budget: 600 SAT calls per query (deterministic); over-budget queries are counted as skipped, not passed. 1/20 of the cases also go through the real binaries with files on disk. Non-trivial = every case; distinct = distinct case".into()
     }
     fn assumptions(&self) -> Vec<String> {
         vec![
